@@ -55,7 +55,7 @@ man = {
     "hooks": {
         "guard": "OPM_COMMON_VERIF",
         "enable": "checks build /repo out-of-tree in /verif/build/{plain,san} with -DOPM_COMMON_VERIF=1 on the compiler command line; no source hook exists so far",
-        "baseline_off_cmd": "cmake --build /repo/_build -j16 && ctest --test-dir /repo/_build -j8 --timeout 900",
+        "baseline_off_cmd": "cmake --build /repo/_build -j16 -- -k 0 ; ctest --test-dir /repo/_build -j8 --timeout 900",
         "source_commits": [],
         "add_only": True,
     },
